@@ -21,7 +21,7 @@ from skeletons import docs as DOCS
 MODULE = "checks.c03"
 
 _PROTECT = re.compile(r"\{%.*?%\}|\{#.*?#\}|\{\{.*?\}\}|<!--.*?-->|<[^>]*>")
-_PLAIN_WORD = re.compile(r"^(?:q[a-z]{2}[.,]?|\[q.*|`q.*|\*+q.*|~~q.*|http.*|!\[.*|\"?q[a-z]{2}.*)$")
+_PLAIN_WORD = re.compile(r"^(?:q[a-z]{2}[.,']?s?'?d?|\[q.*|`q.*|\*+q.*|~~q.*|http.*|!\[.*|\"?q[a-z]{2}.*)$")
 
 
 def relayout(case: dict[str, Any], rnd: random.Random) -> list[str] | None:
@@ -56,7 +56,7 @@ def cases(tier: str) -> list[dict[str, Any]]:
     th = tier == "thorough"
     rnd = random.Random(f"c03:{__import__('os').environ.get('VERIF_SEED', '0')}")
     cs: list[dict[str, Any]] = []
-    paras = [c for c in list(DOCS.para_special(tier, n=4)) + list(DOCS.typo(tier)) if c["ctx"] in (("top", "bullet", "quote", "footnote-long", "nested") if th else ("top", "bullet", "quote"))]
+    paras = [c for c in list(DOCS.para_special(tier, n=4)) + list(DOCS.typo(tier)) + [v for v in DOCS.verbatim(tier) if v.get("fam") == "verb" and v["special"] in ("possessives", "esc-quotes", "quoted-code", "apos-after-code", "url-apos")] if c["ctx"] in (("top", "bullet", "quote", "footnote-long", "nested") if th else ("top", "bullet", "quote"))]
     nrel = 4 if th else 2
     for c in paras:
         if DOCS.special_key(c).endswith("@first]") and c["special"] in dict(DOCS.HAZ):
@@ -119,8 +119,9 @@ def run(env: Any, case: dict[str, Any]) -> Any:
         if case.get("twin"):
             env.prove(d1 == d2, "relayout:twin", "twin: claims the two sources are identical")
             return [d1, d2]
-        o1 = reformat_text(d1, width=W, semantic=case["sem"], cleanups=False)
-        o2 = reformat_text(d2, width=W, semantic=case["sem"], cleanups=False)
+        typo = case.get("fam") in ("typo", "verb")
+        o1 = reformat_text(d1, width=W, semantic=case["sem"], cleanups=False, smartquotes=typo, ellipses=typo)
+        o2 = reformat_text(d2, width=W, semantic=case["sem"], cleanups=False, smartquotes=typo, ellipses=typo)
         if o1 != o2:
             env.prove(False, "relayout:" + diff_kind(o1, o2), {"src2": d2, "out1": o1, "out2": o2})
         else:
@@ -147,6 +148,15 @@ def key_fn(case: dict[str, Any], label: str, item: dict[str, Any], conc: dict[st
         cls = "escape-persists"
     if cls == "first-word-alone":
         label = label.split(":")[0]
+    if label == "relayout:space-runs":
+        # runs of spaces surviving in a heading line or a table row (neither is re-flowed), wherever it sits
+        outs = conc.get("out") or []
+        if len(outs) == 2:
+            from checks.c02 import _unprefix
+
+            diff = [a for a, b in zip(_unprefix(outs[0]), _unprefix(outs[1])) if a != b]
+            if diff and all(re.match(r"(?:[-*+] |\d+[.)] )*(#|\|)", x) or "|" in x for x in diff):
+                cls = "heading-or-table-row"
     return f"{cls}/{label}"
 
 
